@@ -480,3 +480,129 @@ Proof.
   rewrite Hr1. cbn [bind]. cbn beta iota. cbn [is_anone is_empty negb andb].
   change (at_ (d :: ds') 0) with (Some d). cbn [bind]. rewrite Had. cbn beta iota. cbn [is_anone]. rewrite Hti. reflexivity.
 Qed.
+
+(* ---- round 5: the column limit maxCategoryWidth over the whole int range -------------------------------- *)
+(* the components of one PrettyFormatter step that the column theorems speak about *)
+Definition cat_field_len (cat : option qstr) : Z := match cat with Some c => len c + src_pretty_cat_extra | None => 0 end.
+
+(* the remembered column after one message, in closed form: unchanged without a positive limit, otherwise raised
+   to min(field length, limit) when the field is longer *)
+Theorem pretty_column colorize maxw cw t cat msg out cw' :
+  pretty_c colorize maxw cw t cat msg = Some (out, cw') ->
+  cw' = if 0 <? maxw then (if cw <? cat_field_len cat then Z.min (cat_field_len cat) maxw else cw) else cw.
+Proof.
+  unfold pretty_c, cat_field_len. cbn zeta. intros H.
+  destruct (ck _) as [est|]; [|discriminate]. cbn [bind] in H.
+  destruct (type_letter_c t) as [letter|]; [|discriminate]. cbn [bind] in H.
+  assert (Hcfl : forall cfl, (match cat with Some _ => ck (match cat with Some c => len c | None => 0 end + src_pretty_cat_extra) | None => Some 0 end) = Some cfl ->
+                 cfl = match cat with Some c => len c + src_pretty_cat_extra | None => 0 end).
+  { intros cfl. destruct cat; [|intros E; injection E as <-; reflexivity]. unfold ck.
+    destruct (_ && _); [intros E; injection E as <-; reflexivity|discriminate]. }
+  destruct (match cat with Some _ => ck _ | None => Some 0 end) as [cfl|] eqn:Ec; [|discriminate]. cbn [bind] in H.
+  rewrite <- (Hcfl cfl eq_refl). clear Hcfl Ec.
+  destruct (0 <? maxw).
+  - destruct (ck _) as [sc|]; [|discriminate]. cbn [bind] in H.
+    destruct (0 <? sc).
+    + destruct (fill_c sc 32%N); [|discriminate]. cbn [bind] in H. injection H as _ <-. reflexivity.
+    + injection H as _ <-. reflexivity.
+  - injection H as _ <-. reflexivity.
+Qed.
+(* ... so a column that starts below a positive limit never shrinks and never exceeds the limit, without a
+   positive limit it is not touched, and with the largest limit ("no limit": INT_MAX) it is simply the longest
+   field seen so far *)
+Corollary pretty_column_bounds colorize maxw cw t cat msg out cw' :
+  pretty_c colorize maxw cw t cat msg = Some (out, cw') ->
+  (0 < maxw -> cw <= maxw -> cw <= cw' <= maxw) /\ (maxw <= 0 -> cw' = cw).
+Proof. intros H. rewrite (pretty_column _ _ _ _ _ _ _ _ H). destruct (Z.ltb_spec 0 maxw); [|lia]. destruct (Z.ltb_spec cw (cat_field_len cat)); lia. Qed.
+Corollary pretty_column_no_limit colorize cw t cat msg out cw' : len msg + (match cat with Some c => len c | None => 0 end) <= INT_MAX - 200 ->
+  pretty_c colorize INT_MAX cw t cat msg = Some (out, cw') -> cw' = Z.max cw (cat_field_len cat).
+Proof.
+  intros Hl H. rewrite (pretty_column _ _ _ _ _ _ _ _ H). change (0 <? INT_MAX) with true. cbn iota.
+  assert (cat_field_len cat <= INT_MAX) by (unfold cat_field_len, src_pretty_cat_extra, INT_MAX in *; destruct cat; [pose proof (len_nonneg msg)|]; lia).
+  destruct (Z.ltb_spec cw (cat_field_len cat)); lia.
+Qed.
+
+(* a whole message sequence through ONE formatter object (the column is carried from message to message): total for
+   EVERY column limit an int can hold - no bound from below, INT_MAX included - and one output per message *)
+Definition item_fits (x : mtype * option qstr * qstr) : Prop :=
+  len (snd x) + (match snd (fst x) with Some c => len c | None => 0 end) <= INT_MAX - 200.
+Theorem pretty_seq_total colorize maxw l : maxw <= INT_MAX -> Forall item_fits l ->
+  forall cw, 0 <= cw <= INT_MAX -> exists outs, pretty_seq_c colorize maxw cw l = Some outs /\ length outs = length l.
+Proof.
+  intros Hm Hl. induction Hl as [|[[t c] m] r Hx _ IH]; intros cw Hcw; [exists []; split; reflexivity|].
+  cbn [pretty_seq_c]. destruct (pretty_total colorize maxw cw t c m Hm Hcw Hx) as (out & cw' & -> & Hcw'). cbn [bind snd fst].
+  destruct (IH cw' Hcw') as (outs & -> & Hlen). cbn [bind]. eexists; split; [reflexivity|]. cbn [length]. rewrite Hlen. reflexivity.
+Qed.
+Lemma item_fits_raw l : Forall (fun x => len (snd x) + len (cstr (snd (fst x))) <= INT_MAX - 200) l ->
+  Forall item_fits (map (fun x : mtype * option qstr * qstr => (fst (fst x), pretty_cat_of_ptr (snd (fst x)), snd x)) l).
+Proof.
+  intros H. induction H as [|[[t c] m] r Hx _ IH]; [constructor|]. cbn [map]. constructor; [|exact IH].
+  unfold item_fits. cbn [fst snd] in *. destruct c as [s|]; cbn [pretty_cat_of_ptr cstr] in *; [|exact Hx].
+  destruct (beqb s s_default); [pose proof (len_nonneg s); lia|lia].
+Qed.
+Theorem pretty_seq_raw_total colorize maxw l : INT_MIN <= maxw <= INT_MAX ->
+  Forall (fun x => len (snd x) + len (cstr (snd (fst x))) <= INT_MAX - 200) l ->
+  exists outs, pretty_seq_raw_c colorize maxw 0 l = Some outs /\ length outs = length l.
+Proof.
+  intros Hm Hl. unfold pretty_seq_raw_c.
+  destruct (pretty_seq_total colorize maxw _ (proj2 Hm) (item_fits_raw l Hl) 0) as (outs & -> & Hlen); [unfold INT_MAX; lia|].
+  exists outs. split; [reflexivity|]. rewrite Hlen, map_length. reflexivity.
+Qed.
+
+(* ---- round 5: the colour-code remover of configure()'s formatter chain ---------------------------------- *)
+Lemma strip_go_len s : forall st, len (strip_go st s) <= len (sgr_pending st) + len s.
+Proof.
+  induction s as [|c r IH]; intros st; [rewrite len_nil; cbn [strip_go]; lia|].
+  rewrite (len_cons c r). destruct st as [| |rp]; cbn [strip_go].
+  - destruct (c =? src_sgr_esc)%N.
+    + pose proof (IH SgE) as H. cbn [sgr_pending] in *. rewrite len_cons, len_nil in H. rewrite len_nil. lia.
+    + rewrite len_cons. pose proof (IH SgN) as H. cbn [sgr_pending] in *. lia.
+  - cbn [sgr_pending]. rewrite len_cons, len_nil. destruct (c =? src_sgr_open)%N; [|destruct (c =? src_sgr_esc)%N].
+    + pose proof (IH (SgP [])) as H. cbn [sgr_pending rev] in H. rewrite !len_cons, len_nil in H. lia.
+    + rewrite len_cons. pose proof (IH SgE) as H. cbn [sgr_pending] in H. rewrite len_cons, len_nil in H. lia.
+    + rewrite !len_cons. pose proof (IH SgN) as H. cbn [sgr_pending] in H. rewrite len_nil in H. lia.
+  - assert (Hp : len (sgr_pending (SgP (c :: rp))) = len (sgr_pending (SgP rp)) + 1).
+    { cbn [sgr_pending rev]. rewrite !len_cons, len_app, len_cons, len_nil. lia. }
+    destruct (is_sgr_param c); [pose proof (IH (SgP (c :: rp))); lia|].
+    pose proof (len_nonneg (sgr_pending (SgP rp))) as Hp0.
+    destruct (c =? src_sgr_final)%N; [pose proof (IH SgN) as H; cbn [sgr_pending] in H; rewrite len_nil in H; lia|].
+    destruct (c =? src_sgr_esc)%N; rewrite len_app.
+    + pose proof (IH SgE) as H. cbn [sgr_pending] in H. rewrite len_cons, len_nil in H. lia.
+    + rewrite len_cons. pose proof (IH SgN) as H. cbn [sgr_pending] in H. rewrite len_nil in H. lia.
+Qed.
+(* removing colour codes never makes the text longer *)
+Theorem strip_sgr_len s : len (strip_sgr s) <= len s.
+Proof. unfold strip_sgr. destruct (utf16_ok s); [|lia]. pose proof (strip_go_len s SgN) as H. cbn [sgr_pending] in H. rewrite len_nil in H. lia. Qed.
+(* a text without ESC is left alone *)
+Lemma strip_go_plain s : ~ In src_sgr_esc s -> strip_go SgN s = s.
+Proof.
+  induction s as [|c r IH]; [reflexivity|]. intros Hn. cbn [strip_go].
+  destruct (N.eqb_spec c src_sgr_esc) as [->|_]; [exfalso; apply Hn; left; reflexivity|].
+  rewrite IH; [reflexivity|]. intros Hi. apply Hn. right. exact Hi.
+Qed.
+Theorem strip_sgr_plain s : ~ In src_sgr_esc s -> strip_sgr s = s.
+Proof. intros Hn. unfold strip_sgr. destruct (utf16_ok s); [apply strip_go_plain; exact Hn|reflexivity]. Qed.
+(* an unfinished colour code at the END of the text (ESC, or ESC [ and parameters, with nothing behind) is kept: the
+   remover comes back on it - this is the input on which a hand-written "find ESC [, find the final byte" loop spins *)
+Lemma strip_go_app_params ps : forallb is_sgr_param ps = true -> forall rp, strip_go (SgP rp) ps = src_sgr_esc :: src_sgr_open :: rev rp ++ ps.
+Proof.
+  induction ps as [|c r IH]; intros Hp rp; [cbn [strip_go sgr_pending]; rewrite app_nil_r; reflexivity|].
+  cbn [forallb] in Hp. apply andb_prop in Hp as [Hc Hr]. cbn [strip_go]. rewrite Hc. rewrite (IH Hr). cbn [rev]. rewrite <- app_assoc. reflexivity.
+Qed.
+Theorem strip_sgr_unfinished_tail s ps : ~ In src_sgr_esc s -> forallb is_sgr_param ps = true ->
+  strip_sgr (s ++ src_sgr_esc :: src_sgr_open :: ps) = s ++ src_sgr_esc :: src_sgr_open :: ps.
+Proof.
+  unfold strip_sgr. intros Hn Hp. destruct (utf16_ok _); [|reflexivity]. induction s as [|c r IH].
+  - cbn [app strip_go]. rewrite N.eqb_refl. cbn [strip_go]. rewrite N.eqb_refl. rewrite (strip_go_app_params ps Hp). reflexivity.
+  - cbn [app strip_go]. destruct (N.eqb_spec c src_sgr_esc) as [->|_]; [exfalso; apply Hn; left; reflexivity|].
+    rewrite IH; [reflexivity|]. intros Hi. apply Hn. right. exact Hi.
+Qed.
+(* the whole chain on one message: total under the hypotheses of the PrettyFormatter theorem, and what reaches the
+   file is the PrettyFormatter text with colour codes removed - never longer *)
+Theorem configure_total cw t (c : option qstr) msg : 0 <= cw <= INT_MAX -> len msg + len (cstr c) <= INT_MAX - 200 ->
+  exists p out cw', pretty_c src_cfg_colorize src_pretty_default_maxw cw t (pretty_cat_of_ptr c) msg = Some (p, cw') /\
+                    configure_c cw t (pretty_cat_of_ptr c) msg = Some (out, cw') /\ out = strip_sgr p /\ len out <= len p /\ 0 <= cw' <= INT_MAX.
+Proof.
+  intros Hcw Hl. destruct (pretty_raw_total src_cfg_colorize src_pretty_default_maxw cw t c msg) as (p & cw' & Hp & Hcw'); [vm_compute; discriminate|exact Hcw|exact Hl|].
+  exists p, (strip_sgr p), cw'. unfold configure_c. rewrite Hp. cbn [bind fst snd]. repeat split; try reflexivity; try lia. apply strip_sgr_len.
+Qed.
